@@ -96,7 +96,58 @@ def stratified(rng, combos, labels, limit):
     return out
 
 
+# classes that declare a wildcard field NEXT TO declared attributes / a text var, with and without character data in the
+# element: the random universes hardly ever produce this combination (the region of C10-wild-text-takes-unknown-attrs and
+# its surroundings); every attribute injection x the 8 flag combinations on each document
+def _wfield(name, typ):
+    return {"name": name, "type": typ, "metadata": {"type": "Wildcard", "namespace": "##any"},
+            "default": {"value": None} if "opt" in typ else {"factory": "list"}}
+
+
+def _afield(name, pt):
+    return {"name": name, "type": {"opt": pt}, "metadata": {"type": "Attribute"}, "default": {"value": None}}
+
+
+WILD_DESCS = [
+    {"classes": [
+        {"name": "Item", "fields": [_afield("i", "int"), _afield("s", "str"), _wfield("w", {"opt": "object"})]},
+        {"name": "Items", "fields": [_afield("j", "int"), _wfield("ws", {"list": "object"})]},
+        {"name": "Root", "fields": [
+            _afield("k", "int"), _afield("b", "bool"),
+            {"name": "item", "type": {"list": {"cls": "Item"}}, "metadata": {"type": "Element"}, "default": {"factory": "list"}},
+            {"name": "items", "type": {"opt": {"cls": "Items"}}, "metadata": {"type": "Element"}, "default": {"value": None}},
+            _wfield("w", {"opt": "object"})]},
+    ]},
+]
+
+
+def _n(q, a=(), t=None, c=(), tl=None):
+    return {"q": q, "a": [list(x) for x in a], "ns": [], "t": t, "c": list(c), "tl": tl}
+
+
+WILD_DOCS = [
+    _n("Root", [("k", "3")], "t"),
+    _n("Root", [("k", "3"), ("b", "true")]),
+    _n("Root", [("k", "3")], None, [_n("item", [("i", "7"), ("s", "x")], "txt"), _n("item", [("i", "8")]), _n("item", [("s", "y")], None, [_n("g", [("p", "q")], "u")])]),
+    _n("Root", [("b", "false")], None, [_n("items", [("j", "1")], "lead", [_n("g"), _n("h", [], "v")]), _n("free", [("z", "1")], "w")]),
+]
+
+
+def gen_wild_corpus():
+    for desc in WILD_DESCS:
+        u = uni_of({"desc": desc})
+        ctx = u.export_ctx()
+        for tree in WILD_DOCS:
+            for inj in injection_points(tree):
+                if inj["kind"] not in ("attr", "xsi-attr", "attr-value"):
+                    continue
+                for cfg in L.CFG8:
+                    yield {"ctx": ctx, "tree": apply_injection(tree, inj), "clazz": "Root", "config": cfg, "desc": desc, "_uni": u.modname,
+                           "_kind": inj["kind"], "_inj": inj, "_orig": tree}
+
+
 def gen_inject(rng, tier):
+    yield from gen_wild_corpus()
     n_uni = n_cases(tier, 9, 20)
     full_docs = n_cases(tier, 2, 12)
     per_doc = n_cases(tier, 60, 100)
@@ -342,6 +393,12 @@ def check_injection(a, routes=L.ROUTES):
                     if not _same(r0, r1):
                         return f"{where} unknown attribute {inj['q']} changed the result [wild={L.declares_wildcard(desc, lab[1])}]: {_short(r0)} -> {_short(r1)}"
                 elif r1 != {"err": "ParserError"}:
+                    if in_union and not cfg["fail_on_unknown_properties"] and "ok" in r1 and not _same(r0, r1):
+                        # the candidate the element was written from rejects the attribute; with unknown properties
+                        # skipped another candidate of the union may take the element (skipping what it does not
+                        # declare, the attribute with it), as for unknown elements above: the only claim left is that
+                        # the element is not bound as if the attribute were not there
+                        continue
                     return f"{where} fail_on_unknown_attributes: unknown attribute {inj['q']} did not raise ParserError: {_short(r1)}"
             elif lab[0] == "primitive" and not cfg["fail_on_unknown_attributes"]:
                 if not _same(r0, r1):
@@ -422,11 +479,51 @@ def check_attr_conversion(a, lab, r0, r1, where, u):
     return None
 
 
-def covered_injection(a, msg):
-    # bind_wild_text copies all raw attributes into the generic element that holds the text
-    if "[wild=True]" in msg and ("changed the result" in msg or "changes the result" in msg):
+def _without_generic_attr(v, q):
+    """the value with attribute `q` removed from the name-less generic elements (the AnyElement that
+    ElementNode.bind_wild_text builds for the text of an element whose class has a wildcard field)"""
+    if isinstance(v, dict):
+        if isinstance(v.get("any"), dict) and not v["any"].get("qname"):
+            g = dict(v["any"])
+            g["attrs"] = [kv for kv in g.get("attrs", []) if kv[0] != q]
+            return {**{k: _without_generic_attr(x, q) for k, x in v.items() if k != "any"}, "any": {k: (x if k == "attrs" else _without_generic_attr(x, q)) for k, x in g.items()}}
+        return {k: _without_generic_attr(x, q) for k, x in v.items()}
+    if isinstance(v, list):
+        return [_without_generic_attr(x, q) for x in v]
+    return v
+
+
+def covered_injection(a, msg, routes=L.ROUTES):
+    """C10-wild-text-takes-unknown-attrs describes exactly one effect: the injected attribute shows up among the attributes of
+    the name-less generic element that holds the element's text (bind_wild_text copies all raw attributes).  The failure is
+    attributed to it only if, on every route, the result with the attribute is the result without it once the attribute is
+    taken out of those generic elements again; anything else that changes is a different violation."""
+    inj = a.get("_inj") or {}
+    u = uni_of(a)
+    if inj.get("kind") == "attr-value" and "lenient conversion: attribute value" in msg and a.get("_union_classes") is None:
+        # the same copy of the raw attributes, seen from a declared attribute: the generic element mirrors its raw value;
+        # with the mirrored entry taken out on both sides the statement about the conversion must hold as it stands
+        lab = L.label_elements(u, a["clazz"], a["_orig"]).get(tuple(inj["path"]))
+        if not lab or lab[0] != "element" or not L.declares_wildcard(a["desc"], lab[1]):
+            return None
+        for route in routes:
+            r0 = L.parse_route(u, a["clazz"], a["_orig"], a["config"], route)
+            r1 = L.parse_route(u, a["clazz"], a["tree"], a["config"], route)
+            if "ok" not in r0:
+                continue
+            if "ok" not in r1 or check_attr_conversion(a, lab, _without_generic_attr(r0, inj["q"]), _without_generic_attr(r1, inj["q"]), "", u):
+                return None
         return "C10-wild-text-takes-unknown-attrs"
-    return None
+    if not ("[wild=True]" in msg and ("changed the result" in msg or "changes the result" in msg) and inj.get("kind") in ("attr", "xsi-attr")):
+        return None
+    for route in routes:
+        r0 = L.parse_route(u, a["clazz"], a["_orig"], a["config"], route)
+        if "ok" not in r0:
+            continue
+        r1 = L.parse_route(u, a["clazz"], a["tree"], a["config"], route)
+        if "ok" not in r1 or _without_generic_attr(r1, inj["q"]) != _without_generic_attr(r0, inj["q"]):
+            return None
+    return "C10-wild-text-takes-unknown-attrs"
 
 
 def gen_oracle_inject(rng, tier):
